@@ -17,6 +17,7 @@ import z3
 from . import zeval
 from .common import Check, MachineryError, run_tlc, workdir, cleanup
 from .hrun import CREATE_BASE, HRun, PathRec, Prog, Sym, run as halmos_run
+from .symstore import MASK as SYMMASK
 
 W256 = (1 << 256) - 1
 
@@ -108,14 +109,15 @@ def mk_case(cid: int, accounts: dict, txs: list[dict], *, storage=None, balances
     }
 
 
-def env_json(e: dict, create_base: int, oracle=None, assert_mode: str = "stop") -> dict:
+def env_json(e: dict, create_base: int, oracle=None, assert_mode: str = "stop", symstore=()) -> dict:
     """oracle: values returned by successive svm.create*/vm.random* calls (ints = 32-byte words, or bytes)."""
     orc = []
     for o in oracle or []:
         orc.append(list(o) if isinstance(o, bytes | bytearray) else word(o))
     return {**{k: word(v) for k, v in e.items()}, "createBase": word(create_base),
             "opaque": [word(CONSOLE)], "cheatAddrs": [word(HEVM), word(SVM)],
-            "oracle": orc, "assertMode": assert_mode}
+            "oracle": orc, "assertMode": assert_mode,
+            "symstore": [word(a) for a in sorted(symstore)], "symmask": word(SYMMASK)}
 
 
 def to_case(cid: int, prog: Prog, inp: dict[str, int], *, transfer: bool = False, env: dict | None = None, oracle=None,
@@ -134,7 +136,7 @@ def to_case(cid: int, prog: Prog, inp: dict[str, int], *, transfer: bool = False
             mk_tx(prog.target, c["caller"], c["origin"], c["value"], c["data"], static=prog.static, create=prog.create,
                   transfer=transfer)
         ],
-        "env": env_json(e, prog.meta.get("create_base", CREATE_BASE), oracle, assert_mode),
+        "env": env_json(e, prog.meta.get("create_base", CREATE_BASE), oracle, assert_mode, symstore=prog.symstore),
     }
 
 
@@ -180,13 +182,24 @@ def input_env(prog: Prog, inp: dict[str, int]) -> dict:
     return dict(inp)
 
 
+def evaluator_for(prog: Prog, env: dict) -> "zeval.Evaluator":
+    ev = zeval.Evaluator(env)
+    # accounts with symbolic storage: from the start, or enabled by the program's first instructions
+    ss = set(getattr(prog, "symstore", ())) | set(prog.meta.get("symstore_enabled", ()))
+    if ss:
+        from .symstore import make_storage0
+
+        ev.interp.storage0 = make_storage0(ss)
+    return ev
+
+
 def match_paths(prog: Prog, hr: HRun, inp: dict[str, int], extra_env: dict | None = None) -> Match:
     m = Match()
     for idx, p in enumerate(hr.paths):
         env = input_env(prog, inp)
         if extra_env:
             env.update(extra_env)
-        ev = zeval.Evaluator(env)
+        ev = evaluator_for(prog, env)
         ok = True
         try:
             for c in p.conditions:
